@@ -65,14 +65,25 @@ THEOREM_RE = re.compile(r"^(?:protected\s+|private\s+)?theorem\s+([A-Za-z0-9_.'!
 NAMESPACE_RE = re.compile(r"^namespace\s+([A-Za-z0-9_.]+)", re.M)
 
 
+PROP_THM = re.compile(r"(^|\.)C[0-9]{2,3}_")
+
+
 def theorems_of(module):
+    """Property theorems (names `Cxx_…`) of the property module and of its per-language sub-modules."""
     path = os.path.join(LEAN_DIR, module.replace(".", "/") + ".lean")
     if not os.path.exists(path):
         return None, path
-    src = strip_comments(open(path, encoding="utf-8").read())
-    ns = NAMESPACE_RE.findall(src)
-    prefix = (ns[0] + ".") if ns else ""
-    return [prefix + t for t in THEOREM_RE.findall(src)], path
+    files = [path]
+    sub = path[:-5]
+    if os.path.isdir(sub):
+        files += sorted(os.path.join(sub, f) for f in os.listdir(sub) if f.endswith(".lean"))
+    out = []
+    for fp in files:
+        src = strip_comments(open(fp, encoding="utf-8").read())
+        ns = NAMESPACE_RE.findall(src)
+        prefix = (ns[0] + ".") if ns else ""
+        out += [prefix + t for t in THEOREM_RE.findall(src) if PROP_THM.search(prefix + t)]
+    return out, path
 
 
 def proof_step(pid, module, thorough):
